@@ -8,7 +8,7 @@ From PV Require Import Proofs.ConcDefs Proofs.C05.
 Theorem C05_commit_generation :
   forall cf reqs s d i r u g ts' d',
     exec cf reqs s d = (ts', d') -> nth_error reqs i = Some r -> carries_rp_gen r u g -> succeeded ts' i ->
-    exists k, nth_error s k = Some i /\ gen_of (snd (at_step cf reqs s d k)) u = Some g.
+    exists k, commits_at cf reqs s d i k /\ gen_of (snd (at_step cf reqs s d k)) u = Some g.
 Proof. exact c05_commit_generation. Qed.
 Print Assumptions C05_commit_generation.
 
@@ -48,7 +48,7 @@ Theorem C05_self_derived :
   forall cf reqs s d i r u ts' d',
     exec cf reqs s d = (ts', d') -> nth_error reqs i = Some r -> prov_target r = Some u ->
     succeeded ts' i ->
-    exists k1 k2 g, (k1 < k2)%nat /\ nth_error s k1 = Some i /\ nth_error s k2 = Some i /\
+    exists k1 k2 g, (k1 < k2)%nat /\ nth_error s k1 = Some i /\ commits_at cf reqs s d i k2 /\
       gen_of (snd (at_step cf reqs s d k1)) u = Some g /\ gen_of (snd (at_step cf reqs s d k2)) u = Some g.
 Proof. exact c05_self_derived. Qed.
 Print Assumptions C05_self_derived.
